@@ -86,6 +86,7 @@ def nodeStrength : ENode → Nat
 def npEmit : PrecU.Np EOp EU
   | .b (.bin b), isLeft, c => needsParens (nodeStrength c) isLeft b.strength b.assoc
   | .b o, isLeft, c => needsParens (nodeStrength c) false (o.required isLeft).1 (o.required isLeft).2
+  | .u .neg, _, .u .neg => minusGuard || needsParens EU.neg.strength false EU.neg.required.1 EU.neg.required.2   -- text guard of translate_operator
   | .u u, _, c => needsParens (nodeStrength c) false u.required.1 u.required.2
 
 /-- SQLite's operator table (lang_expr.html): the emitted operators placed on it -/
@@ -146,11 +147,17 @@ def atomOf (d : Dialect) (e : Model.PExpr.PExpr) : Option ETree :=
   | some (s, k) => if otherExprStrength ≤ k then some (.leaf (.text s)) else none
   | none => none
 
+/-- an atom whose text starts with `-`, as the operand of unary minus: the text guard of translate_operator wraps it, and a
+parenthesised atom is an atom -/
+def guardAtom : ETree → ETree
+  | .leaf (.text s) => if minusGuard && s.head? == some '-' then .leaf (.text (['('] ++ s ++ [')'])) else .leaf (.text s)
+  | t => t
+
 open Model.PExpr in
 /-- operator tree of an RQ expression; sub-expressions outside the operator fragment become text atoms -/
 def toTree (d : Dialect) : PExpr → Option ETree
   | .col i => some (.leaf (.col i))
-  | .un .Neg a => (toTree d a).map (.un .neg)
+  | .un .Neg a => (toTree d a).map fun t => .un .neg (guardAtom t)
   | .un .Not a => (toTree d a).map (.un .not)
   | .bin o a b =>
     if isEqNe o && (a.isNullLit || b.isNullLit) then none   -- IS NULL has strength 5: outside this fragment
